@@ -37,6 +37,7 @@ pub static SPEC: Spec = Spec {
         "steps_compared",
         "replica_scripts",
         "scripts_with_hostile_requests",
+        "scripts_with_altered_proofs",
     ],
     rule: "a case = one script (writer history from the C01 generators incl. clears that punch holes / truncate the tail, or a writer+replica replication script) executed under several configurations: backends {instrumented in-memory, real random-access-memory, real random-access-disk in a scratch directory (files read back from disk)} x node cache {off, default options, capacity of 2-3 nodes}; after EVERY step the call result, the full observation (info, has, get of every index) and the bytes of all four store files are compared with the reference configuration (instrumented backend, cache off): across backends results, observations and file bytes must be identical; across cache configurations results and observations must be identical; the five-step interop scenario must reproduce the JS-certified file hashes on every backend; thorough additionally compares per-case trace hashes against separate builds with the cache feature compiled out and with the sparse feature off; distinct = script hash; evaluations = (script, configuration) runs",
     assumptions: &["disk backend runs with its default per-operation sync; punched holes read back as zeros"],
@@ -80,6 +81,10 @@ pub enum Step {
     W(Op),
     R(Plan),
     ReopenReplica,
+    /// like R, but the writer's honest proof is altered (alteration chosen by the seed from the
+    /// C04 battery) before the replica sees it: whatever the replica makes of it must not depend
+    /// on the configuration
+    RAlt(Plan, u64),
     /// an arbitrary (possibly ill-formed) request served by the writer: block (index, nodes),
     /// hash (index, nodes), seek bytes, upgrade (start, length)
     Hostile(Option<(u64, u64)>, Option<(u64, u64)>, Option<u64>, Option<(u64, u64)>),
@@ -91,6 +96,7 @@ impl Step {
             Step::W(o) => json!({"w": o.to_json()}),
             Step::R(p) => json!({"r": p.to_json()}),
             Step::ReopenReplica => json!("reopen-replica"),
+            Step::RAlt(p, a) => json!({"r-altered": p.to_json(), "alteration_seed": a}),
             Step::Hostile(b, h, s, u) => json!({"hostile": {"block": b, "hash": h, "seek": s, "upgrade": u}}),
         }
     }
@@ -210,46 +216,11 @@ pub fn run_script_ow(steps: &[Step], key: &SigningKey, wb: &Backend, rb: Option<
                 None => "no-core".into(),
             },
             Step::R(plan) => match (w.as_mut(), rp.as_mut()) {
-                (Some(wc), Some(rc)) => {
-                    let len = rc.info().length;
-                    let mut block = None;
-                    let mut hash = None;
-                    let mut s = String::new();
-                    if let Some(i) = plan.block {
-                        match exec::call(rc.missing_nodes(i)) {
-                            Ok(Ok(n)) => block = Some(RequestBlock { index: i, nodes: n }),
-                            other => s = format!("missing_nodes:{:?}", other.map(|x| x.map_err(|e| ops::err_sig(&e)))),
-                        }
-                    }
-                    if let Some(j) = plan.hash {
-                        match exec::call(rc.missing_nodes_from_merkle_tree_index(j)) {
-                            Ok(Ok(n)) => hash = Some(RequestBlock { index: j, nodes: n }),
-                            other => s = format!("missing_nodes:{:?}", other.map(|x| x.map_err(|e| ops::err_sig(&e)))),
-                        }
-                    }
-                    if s.is_empty() {
-                        let seek = plan.seek.map(|b| RequestSeek { bytes: b });
-                        let up = plan.upgrade.map(|l| RequestUpgrade { start: len, length: l });
-                        match exec::call(wc.create_proof(block.clone(), hash.clone(), seek, up)) {
-                            Ok(Ok(Some(p))) => {
-                                let ph = crate::rng::fnv(format!("{p:?}").as_bytes());
-                                if std::env::var("HC_DEBUG_PROOFS").is_ok() {
-                                    eprintln!("[{:?}] plan {:?} -> proof {:?}", cache, plan, p);
-                                }
-                                match exec::call(rc.verify_and_apply_proof(&p)) {
-                                    Ok(Ok(b)) => format!("req({block:?},{hash:?}) proof#{ph:x} applied={b}"),
-                                    Ok(Err(e)) => format!("req({block:?},{hash:?}) proof#{ph:x} Err({})", ops::err_sig(&e)),
-                                    Err(pn) => format!("verify panic({})", exec::panic_sig(&pn)),
-                                }
-                            }
-                            Ok(Ok(None)) => "proof=None".to_string(),
-                            Ok(Err(e)) => format!("create_proof Err({})", ops::err_sig(&e)),
-                            Err(pn) => format!("create_proof panic({})", exec::panic_sig(&pn)),
-                        }
-                    } else {
-                        s
-                    }
-                }
+                (Some(wc), Some(rc)) => replica_round(wc, rc, plan, None, cache),
+                _ => "no-core".into(),
+            },
+            Step::RAlt(plan, a) => match (w.as_mut(), rp.as_mut()) {
+                (Some(wc), Some(rc)) => replica_round(wc, rc, plan, Some(*a), cache),
                 _ => "no-core".into(),
             },
         };
@@ -265,6 +236,64 @@ pub fn run_script_ow(steps: &[Step], key: &SigningKey, wb: &Backend, rb: Option<
         });
     }
     out
+}
+
+/// One request/proof round between writer and replica; `alt`: alter the honest proof first.
+fn replica_round(wc: &mut Hypercore, rc: &mut Hypercore, plan: &Plan, alt: Option<u64>, cache: CacheMode) -> String {
+    let len = rc.info().length;
+    let mut block = None;
+    let mut hash = None;
+    let mut s = String::new();
+    if let Some(i) = plan.block {
+        match exec::call(rc.missing_nodes(i)) {
+            Ok(Ok(n)) => block = Some(RequestBlock { index: i, nodes: n }),
+            other => s = format!("missing_nodes:{:?}", other.map(|x| x.map_err(|e| ops::err_sig(&e)))),
+        }
+    }
+    if let Some(j) = plan.hash {
+        match exec::call(rc.missing_nodes_from_merkle_tree_index(j)) {
+            Ok(Ok(n)) => hash = Some(RequestBlock { index: j, nodes: n }),
+            other => s = format!("missing_nodes:{:?}", other.map(|x| x.map_err(|e| ops::err_sig(&e)))),
+        }
+    }
+    if !s.is_empty() {
+        return s;
+    }
+    let seek = plan.seek.map(|b| RequestSeek { bytes: b });
+    let up = plan.upgrade.map(|l| RequestUpgrade { start: len, length: l });
+    match exec::call(wc.create_proof(block.clone(), hash.clone(), seek, up)) {
+        Ok(Ok(Some(p))) => {
+            let mut p = p;
+            let mut how = String::new();
+            if let Some(a) = alt {
+                let mut ar = Rng::new(a);
+                let alts = crate::mutate::alterations(&p, &mut ar, 1);
+                if alts.is_empty() {
+                    return "no-alteration".into();
+                }
+                let alt = &alts[(a % alts.len() as u64) as usize];
+                match crate::mutate::apply(&p, alt) {
+                    Some(q) => {
+                        how = format!(" altered({})", alt.kind());
+                        p = q;
+                    }
+                    None => return "no-alteration".into(),
+                }
+            }
+            let ph = crate::rng::fnv(format!("{p:?}").as_bytes());
+            if std::env::var("HC_DEBUG_PROOFS").is_ok() {
+                eprintln!("[{:?}] plan {:?} -> proof {:?}", cache, plan, p);
+            }
+            match exec::call(rc.verify_and_apply_proof(&p)) {
+                Ok(Ok(b)) => format!("req({block:?},{hash:?}) proof#{ph:x}{how} applied={b}"),
+                Ok(Err(e)) => format!("req({block:?},{hash:?}) proof#{ph:x}{how} Err({})", ops::err_sig(&e)),
+                Err(pn) => format!("verify panic({})", exec::panic_sig(&pn)),
+            }
+        }
+        Ok(Ok(None)) => "proof=None".to_string(),
+        Ok(Err(e)) => format!("create_proof Err({})", ops::err_sig(&e)),
+        Err(pn) => format!("create_proof panic({})", exec::panic_sig(&pn)),
+    }
 }
 
 pub fn trace_hash(t: &[Trace]) -> u64 {
@@ -390,6 +419,14 @@ pub fn replica_script(r: &mut Rng) -> Vec<Step> {
                     }
                 }
             }
+            // sometimes the replica is first offered an altered version of the same proof,
+            // sometimes right after a reopen (nothing cached, nothing unflushed)
+            if r.chance(1, 4) {
+                if r.chance(1, 3) {
+                    steps.push(Step::ReopenReplica);
+                }
+                steps.push(Step::RAlt(plan.clone(), r.next_u64()));
+            }
             steps.push(Step::R(plan));
             if r.chance(1, 6) {
                 steps.push(Step::ReopenReplica);
@@ -404,9 +441,14 @@ pub fn replica_script(r: &mut Rng) -> Vec<Step> {
 
 fn run_configs(ctx: &mut Ctx, steps: &[Step], key_seed: u64, with_disk: bool, tag: &str) {
     let key = ops::key_from_seed(key_seed);
-    let has_replica = steps.iter().any(|s| matches!(s, Step::R(_) | Step::ReopenReplica));
+    let has_replica = steps.iter().any(|s| matches!(s, Step::R(_) | Step::RAlt(..) | Step::ReopenReplica));
     if steps.iter().any(|s| matches!(s, Step::Hostile(..))) {
         ctx.count("scripts_with_hostile_requests");
+    }
+    let nalt = steps.iter().filter(|s| matches!(s, Step::RAlt(..))).count() as u64;
+    if nalt > 0 {
+        ctx.count("scripts_with_altered_proofs");
+        ctx.add("altered_proofs_offered_per_config", nalt);
     }
     let mk = |kind: u8, which: &str| -> Backend {
         match kind {
@@ -509,7 +551,7 @@ pub fn tracehash_lines(seed: u64, n: u64) -> Vec<String> {
             writer_script(&mut r, ops)
         };
         let key = ops::key_from_seed(1000 + id);
-        let has_replica = steps.iter().any(|s| matches!(s, Step::R(_) | Step::ReopenReplica));
+        let has_replica = steps.iter().any(|s| matches!(s, Step::R(_) | Step::RAlt(..) | Step::ReopenReplica));
         // memory backend, cache options given (ignored when the feature is compiled out)
         let wb = Backend::new_memory();
         let rb = if has_replica { Some(Backend::new_memory()) } else { None };
